@@ -166,9 +166,73 @@ fn small_scope(maxlen: u32) -> SubCheck {
     )
 }
 
+#[derive(Debug, Clone, Serialize, Deserialize)]
+pub struct TextCase {
+    pub log: u8,
+    pub bh1: Vec<u8>,
+    pub bh2: Vec<u8>,
+    pub tail: Vec<u8>,
+}
+
+/// Route "parsing text directly into a normalising type" for texts that no raw object can hold:
+/// raw block hashes of up to ~400 characters whose run-collapsed form may or may not fit.
+pub fn eval_text(case: &TextCase, st: &mut Stats) -> Result<(), String> {
+    let sym = |v: &Vec<u8>| -> Vec<u8> { v.iter().map(|&c| oracle::fmt::b64_index(c).unwrap()).collect() };
+    let (r1, r2) = (sym(&case.bh1), sym(&case.bh2));
+    let (c1, c2) = (collapse(&r1), collapse(&r2));
+    let mut text = (3u64 << case.log).to_string().into_bytes();
+    text.push(b':');
+    text.extend(&case.bh1);
+    text.push(b':');
+    text.extend(&case.bh2);
+    text.extend(&case.tail);
+    let exp = RawH { log: case.log, bh1: c1.clone(), bh2: c2.clone() };
+    let show = String::from_utf8_lossy(&text).to_string();
+    for (cap2, long) in [(32usize, false), (64usize, true)] {
+        let fits = c1.len() <= 64 && c2.len() <= cap2;
+        let got: Result<RawH, String> = if long {
+            must("LongFuzzyHash::from_bytes", || ssdeep::LongFuzzyHash::from_bytes(&text))?.map(|h| {
+                assert!(h.is_valid());
+                content(&h)
+            }).map_err(|e| format!("{:?}", e))
+        } else {
+            must("FuzzyHash::from_bytes", || ssdeep::FuzzyHash::from_bytes(&text))?.map(|h| {
+                assert!(h.is_valid());
+                content(&h)
+            }).map_err(|e| format!("{:?}", e))
+        };
+        match (fits, got) {
+            (true, Ok(g)) => ensure_eq!(g, exp, "parsing {:?} into the {} normalising type", show, if long { "long" } else { "short" }),
+            (true, Err(e)) => return Err(format!("{} normalising type rejects {:?} ({}) although its run-collapsed block hashes have {} / {} characters", if long { "long" } else { "short" }, show, e, c1.len(), c2.len())),
+            (false, Ok(g)) => return Err(format!("{} normalising type accepts {:?} as {} although the run-collapsed block hashes have {} / {} characters", if long { "long" } else { "short" }, show, g.text(), c1.len(), c2.len())),
+            (false, Err(_)) => {}
+        }
+        if fits && (r1.len() > 64 || r2.len() > cap2) {
+            st.class("raw_too_long_but_collapsed_fits");
+            if c1.len() == 64 || c2.len() == cap2 {
+                st.class("collapsed_exactly_at_capacity");
+            }
+        }
+    }
+    if r1.len() > 64 || r2.len() > 32 {
+        st.nontrivial(oracle::fingerprint(&text));
+    }
+    if r1.len() > 140 || r2.len() > 140 {
+        st.class("raw_block_hash>140");
+    }
+    Ok(())
+}
+
 pub fn subchecks(tier: Tier) -> Vec<SubCheck> {
     vec![
         small_scope(tier.pick(14, 18)),
+        generated(
+            "parse_texts_beyond_raw_capacity",
+            "texts whose raw block hashes have up to ~400 characters (lengths aimed at the capacities before and after collapsing) parsed directly into FuzzyHash / LongFuzzyHash: accepted exactly when the run-collapsed block hashes fit, and then equal to the reference run-collapser; non-trivial = a raw block hash longer than a capacity; distinct by text",
+            tier.pick(60_000, 1_000_000),
+            || (0u8..31, gens::block_hash_text(), gens::block_hash_text(), gens::text_tail()).prop_map(|(log, bh1, bh2, tail)| TextCase { log, bh1, bh2, tail }),
+            eval_text,
+        ),
         generated(
             "routes_agree",
             "raw hashes as run layouts (both capacities): normalize(), normalize_in_place(), clone_normalized(), From, from_raw_form, parsing the raw text into the normalising type, dual from object / from text: all valid, equal to the reference run-collapser and full_eq to each other; idempotence; is_normalized; non-trivial = at least one run longer than 3; distinct by text",
